@@ -46,6 +46,23 @@ type region struct {
 	dirty bool
 }
 
+// cachedRegion is an imported object graph kept by a worker across paths: as long as no path wrote to
+// it (write barrier), the next path that performs the same native call gets the same objects back
+// instead of a fresh import.
+type cachedRegion struct {
+	root  Value
+	r     *region
+	cells []*Value
+	objs  []interface{}
+	inUse bool
+	exp   *exportCache
+}
+
+type exportCache struct {
+	native interface{}
+	ex     *Exporter
+}
+
 type frozenRef struct {
 	r   *region
 	idx int
@@ -82,18 +99,18 @@ func (m *Machine) freeze(roots ...Value) {
 
 // freezeKeyed registers everything reachable from roots as one region whose content is fully
 // determined by key (the inputs of the native call that produced it): no digest traversal needed.
-func (m *Machine) freezeKeyed(key string, roots ...Value) {
+func (m *Machine) freezeKeyed(key string, roots ...Value) *cachedRegion {
 	if m.ex.ex.cfg.Mode != "all" {
-		return
+		return nil
 	}
-	if m.regionSeq == nil {
-		m.regionSeq = map[string]int{}
-		m.frozen = make(map[*Value]frozenRef, 1<<13)
-		m.frozenObj = make(map[interface{}]frozenRef, 1<<10)
-	}
+	m.useWorkerRegions()
 	d := sha256.Sum256([]byte(key))
 	base := fmt.Sprintf("%x", d[:12])
 	r := &region{tag: "K" + base}
+	cr := &cachedRegion{r: r, inUse: true}
+	if len(roots) == 1 {
+		cr.root = roots[0]
+	}
 	n, no := 0, 0
 	var walk func(v Value)
 	cell := func(c *Value) {
@@ -104,6 +121,7 @@ func (m *Machine) freezeKeyed(key string, roots ...Value) {
 			return
 		}
 		m.frozen[c] = frozenRef{r, n}
+		cr.cells = append(cr.cells, c)
 		n++
 		walk(*c)
 	}
@@ -139,6 +157,7 @@ func (m *Machine) freezeKeyed(key string, roots ...Value) {
 				return
 			}
 			m.frozenObj[v] = frozenRef{r, no}
+			cr.objs = append(cr.objs, v)
 			no++
 			for i := range v.Keys {
 				walk(v.Keys[i])
@@ -153,6 +172,78 @@ func (m *Machine) freezeKeyed(key string, roots ...Value) {
 	for _, x := range roots {
 		walk(x)
 	}
+	w := m.ex
+	if w.regionCache == nil {
+		w.regionCache = map[string][]*cachedRegion{}
+	}
+	w.regionCache[key] = append(w.regionCache[key], cr)
+	return cr
+}
+
+// useWorkerRegions makes the machine use the worker's persistent frozen-cell tables
+func (m *Machine) useWorkerRegions() {
+	if m.frozen != nil {
+		return
+	}
+	w := m.ex
+	if w.frozen == nil {
+		w.frozen = make(map[*Value]frozenRef, 1<<14)
+		w.frozenObj = make(map[interface{}]frozenRef, 1<<10)
+	}
+	m.frozen, m.frozenObj = w.frozen, w.frozenObj
+	m.regionSeq = map[string]int{}
+}
+
+// cachedImport returns a clean cached region for key that this path has not used yet
+func (m *Machine) cachedImport(key string) *cachedRegion {
+	if m.ex.ex.cfg.Mode != "all" {
+		return nil
+	}
+	m.useWorkerRegions()
+	for _, cr := range m.ex.regionCache[key] {
+		if !cr.inUse && !cr.r.dirty {
+			cr.inUse = true
+			return cr
+		}
+	}
+	return nil
+}
+
+// recycleRegions runs between paths: dirty regions are dropped, clean ones become available again
+func (w *Worker) recycleRegions() {
+	for key, list := range w.regionCache {
+		keep := list[:0]
+		for _, cr := range list {
+			if cr.r.dirty {
+				for _, c := range cr.cells {
+					delete(w.frozen, c)
+				}
+				for _, o := range cr.objs {
+					delete(w.frozenObj, o)
+				}
+				continue
+			}
+			cr.inUse = false
+			keep = append(keep, cr)
+		}
+		if len(keep) == 0 {
+			delete(w.regionCache, key)
+		} else {
+			w.regionCache[key] = keep
+		}
+	}
+}
+
+// regionOf returns the clean frozen region a pointer belongs to
+func (m *Machine) regionOf(v Value) *region {
+	p, ok := v.(Ptr)
+	if !ok || p == nil || m.frozen == nil {
+		return nil
+	}
+	if fr, ok := m.frozen[(*Value)(p)]; ok && !fr.r.dirty {
+		return fr.r
+	}
+	return nil
 }
 
 // regionTagOf returns the tag of the clean frozen region a pointer belongs to ("" if none)
